@@ -124,9 +124,9 @@ def analyse_unit(unit, gen_dir, tier, canary=False):
     is repeated (at most 3 rounds)."""
     extra = []
     ur = None
-    for _round in range(4):
+    for _round in range(7):
         ur = _analyse_unit(unit, gen_dir, tier, canary, tuple(extra))
-        if not ur.frontend_errors or _round == 3:
+        if not ur.frontend_errors or _round == 6:
             break
         names = set()
         for fe in ur.frontend_errors:
@@ -149,8 +149,18 @@ def analyse_unit(unit, gen_dir, tier, canary=False):
                     added = True
                     break
         if not added:
-            break
+            # helpers whose BODY the front end rejects (iterator chains, ...) are kept opaque: signature only, result
+            # arbitrary; a caller whose proof then fails is `helper-without-contract` (undecided), never a violation
+            bad = set()
+            for ln in getattr(ur, "frontend_lines", []):
+                for f in ur.gen.functions:
+                    if f["gen_start"] <= ln <= f["gen_end"] and any(e[2] == f["name"] and not (len(e) > 4 and e[4]) for e in extra):
+                        bad.add(f["name"])
+            if not bad:
+                break
+            extra = [(e[0], e[1], e[2], e[3], True) if e[2] in bad else e for e in extra]
     ur.auto_included = [f"{e[0]}::{e[2]}" for e in extra]
+    ur.opaque_helpers = [e[2] for e in extra if len(e) > 4 and e[4]]
     return ur
 
 
@@ -168,6 +178,7 @@ def _analyse_unit(unit, gen_dir, tier, canary=False, extra_fns=()):
     ur = UnitResult()
     ur.unit, ur.gen, ur.path, ur.run, ur.text = unit, g, path, r, text
     ur.frontend_errors, ur.rlimit_hits, ur.errors = [], [], []
+    ur.frontend_lines = []
     if r["timeout"]:
         ur.rlimit_hits.append("verus timeout")
         return ur
@@ -187,6 +198,9 @@ def _analyse_unit(unit, gen_dir, tier, canary=False, extra_fns=()):
             continue
         if kind == "frontend":
             ur.frontend_errors.append(d.get("rendered") or msg)
+            for sp in d.get("spans", []) or []:
+                if sp.get("is_primary") and sp.get("line_start"):
+                    ur.frontend_lines.append(sp["line_start"])
             continue
         ur.errors.append(locate_error(g, d, kind))
     if r["json"] is None or not vr or vr.get("encountered-vir-error"):
@@ -302,7 +316,7 @@ def check_breakdown(g, breakdown, unit):
     for full in breakdown:
         names.setdefault(full.split("::")[-1], []).append(full)
     for f in g.functions:
-        if f["name"] not in names:
+        if f["name"] not in names and not f.get("opaque"):
             missing.append(f["name"])
     for l in g.lemmas:
         if l["name"] not in names:
@@ -430,7 +444,7 @@ def main(argv):
             continue
         cstats = solver_stats(cr.gen, cr.breakdown)
         for f in cr.gen.functions:
-            if prop not in f["props"]:
+            if prop not in f["props"] or f.get("opaque"):
                 continue
             ok = f["name"] in cstats and not cstats[f["name"]]["success"]
             canaries.append({"unit": unit, "target": f["name"], "canary": "assert(false) at body entry must fail", "failed_as_required": ok})
